@@ -5,7 +5,7 @@ import ast
 from collections import Counter
 from typing import Dict, List, Optional, Tuple
 
-from ..collect import Path, callee_is, run_paths
+from ..collect import Path, callee_is, default_inline, run_paths
 from ..common import with_helpers as with_helpers_, calls_in, construct, defs_of, where
 from ..flow import ANY_EXC, NONE, Value, show, strparts, subterms
 from ..loader import AnalysisError, ClassInfo, FuncInfo, Program, walk_shallow
@@ -84,6 +84,9 @@ def lin_of_fstring(e: ast.expr) -> Lin:
     raise Undecided(f"R2.1: emitted piece outside the template fragment: {ast.unparse(e)[:60]}")
 
 
+_ROLE_NAMES = {"sendfile", "file_descriptor", "file", "send", "scope", "receive"}  # a two-parameter callable over these is not a (start, end) function
+
+
 def canon(fn_node: ast.AST) -> ast.AST:
     """Copy of a function with its locals renamed to canonical ROLE names found by structural matching, so that the
     shape checks below do not depend on what the locals are called."""
@@ -140,9 +143,9 @@ def canon(fn_node: ast.AST) -> ast.AST:
                 ren[tg[0]] = "ranges"
             elif v == "len(boundary)" and len(tg) == 1:
                 ren[tg[0]] = "boundary_len"
-        elif isinstance(n, ast.Lambda) and len(n.args.args) == 2:
+        elif isinstance(n, ast.Lambda) and len(n.args.args) == 2 and not ({a_.arg for a_ in n.args.args} & _ROLE_NAMES):
             ren.update({n.args.args[0].arg: "start", n.args.args[1].arg: "end"})
-        elif isinstance(n, ast.FunctionDef) and n is not t and len(n.args.args) == 2 and not n.args.kwonlyargs and not n.args.vararg:
+        elif isinstance(n, ast.FunctionDef) and n is not t and len(n.args.args) == 2 and not n.args.kwonlyargs and not n.args.vararg and not ({a_.arg for a_ in n.args.args} & _ROLE_NAMES):
             ren.update({n.args.args[0].arg: "start", n.args.args[1].arg: "end"})
     # second pass for names that depend on the first (ranges -> start, end ; ranges[0])
     for n in ast.walk(t):
@@ -398,6 +401,14 @@ def run(p: Program, rep: Report, tier: str) -> None:
         rep.analysed(h.fq)
         hn = canon(h.node)
         loops = [n for n in ast.walk(hn) if isinstance(n, (ast.For, ast.AsyncFor)) and ast.unparse(n.iter) == "ranges"]
+        if not loops:
+            # the handler's own statements may live in a private helper it calls (the body of a decorated handler is one)
+            for f_ in with_helpers_(p, h)[1:]:
+                hn_ = canon(f_.node)
+                loops_ = [n for n in ast.walk(hn_) if isinstance(n, (ast.For, ast.AsyncFor)) and ast.unparse(n.iter) == "ranges"]
+                if loops_:
+                    hn, loops = hn_, loops_
+                    break
         if len(loops) != 1 or ast.unparse(loops[0].target) != "(start, end)":
             rep.undecide("R2.1", f"{side}: no `for start, end in ranges` loop")
             continue
@@ -475,7 +486,7 @@ def run(p: Program, rep: Report, tier: str) -> None:
                           f"the closing-delimiter term of the Content-Length formula disagrees with what {side} emits after the last range")
         # content-length header is the formula's value; content-type announces the boundary (decided on the paths: aliases of
         # self.headers and locals do not matter)
-        hpaths, hcol, _hit = run_paths(p, h, cls, inline=lambda fi: fi.name == "create_send_or_zerocopy", depth=2)
+        hpaths, hcol, _hit = run_paths(p, h, cls, inline=lambda fi: fi.name == "create_send_or_zerocopy" or default_inline(fi), depth=3)
         rep.cfg_paths += len(hpaths)
         cl_ok = ct_ok = 0
         cl_bad = ct_bad = None
@@ -524,7 +535,7 @@ def run(p: Program, rep: Report, tier: str) -> None:
             if h is None:
                 raise AnalysisError(f"{side} {hname} vanished")
             rep.analysed(h.fq)
-            paths, col, it = run_paths(p, h, cls, inline=lambda fi: fi.name == "create_send_or_zerocopy", depth=2)
+            paths, col, it = run_paths(p, h, cls, inline=lambda fi: fi.name == "create_send_or_zerocopy" or default_inline(fi), depth=3)
             rep.cfg_paths += len(paths)
             for pa in paths:
                 if pa.exit != "return":
@@ -567,17 +578,20 @@ def run(p: Program, rep: Report, tier: str) -> None:
                             rep.violation("R2.2", construct(h, m), where(h, m), f"{side} {hname}: a header is written under the HEAD/GET branch (HEAD and GET headers differ)")
         # single range reader args
         h = cls.methods["handle_single_range"]
-        src = ast.unparse(canon(h.node))
+        unit_h = with_helpers_(p, h)  # the handler with the private helpers it reaches (a decorated handler's own body is one)
+        src = "\n".join(ast.unparse(canon(f_.node)) for f_ in unit_h)
         if side == "wsgi":
-            ok = wsgi_range_reader(canon(h.node)) is None
+            ok = any(wsgi_range_reader(canon(f_.node)) is None for f_ in unit_h)
         else:
             ok = "sendfile(file_descriptor, start, end - start)" in src
         if ok:
             rep.ok("R2.2", f"{side}: the single-range reader uses the same (start, end) as the Content-Range/Content-Length headers")
+        elif len(unit_h) > 1 and side == "asgi":
+            rep.undecide("R2.2", f"{side}: the single-range sender is spread over {len(unit_h)} functions and not of the form sendfile(fd, start, end - start)")
         else:
             rep.violation("R2.2", construct(h, text="single-range reader arguments"), where(h), f"{side}: the bytes read for a single range are not [start, end) of the headers")
         ha = cls.methods["handle_all"]
-        src = ast.unparse(canon(ha.node))
+        src = "\n".join(ast.unparse(canon(f_.node)) for f_ in with_helpers_(p, ha))
         ok = ("range(0, file_size, self.chunk_size)" in src and "file.read(self.chunk_size)" in src) if side == "wsgi" else "sendfile(file_descriptor)" in src
         if ok:
             rep.ok("R2.2", f"{side}: the whole-file reader covers [0, file_size)")
